@@ -427,6 +427,9 @@ void h_do_decode(void)
 	vg_pick_decoder_config(nondet_bool() ? 1 : 2);
 	vg_rd.curr_file = &vg_h[0];
 	r = do_decode(reader, output);
+	if (r != 0 && output != NULL) { VG_CANARY("do_decode: good verdict while extracting"); }
+	if (r != 0 && output == NULL && VG_D2) { VG_CANARY("do_decode: good verdict through the pass-through decoder"); }
+	if (r == 0 && output == NULL) { VG_CANARY("do_decode: bad verdict while testing"); }
 	VG_CANARY("do_decode");
 }
 
@@ -438,6 +441,8 @@ void h_open_decoder(void)
 	vg_pick_decoder_config(0);
 	vg_pick_current0();
 	r = open_decoder(reader, callback, callback_data);
+	if (r != 0 && VG_D2) { VG_CANARY("open_decoder: pass-through"); }
+	if (r == 0 && VG_D3) { VG_CANARY("open_decoder: pass-through failed, inner decoder left for close_decoder"); }
 	VG_CANARY("open_decoder");
 }
 
@@ -449,6 +454,9 @@ void h_check(void)
 	vg_pick_decoder_config(0);
 	vg_pick_current0();
 	r = lha_reader_check(reader, callback, callback_data);
+	if (r != 0 && vg_rd.curr_file_type == CURR_FILE_NORMAL && !VG_IS_DIR(vg_h[0])) { VG_CANARY("lha_reader_check: good verdict for a file member"); }
+	if (r == 0 && (VG_D1 || VG_D2)) { VG_CANARY("lha_reader_check: bad verdict after decoding"); }
+	if (r != 0 && VG_D0) { VG_CANARY("lha_reader_check: directory"); }
 	VG_CANARY("lha_reader_check");
 }
 
@@ -462,6 +470,8 @@ void h_extract_file(void)
 	vg_pick_current0();
 	vg_rd.curr_file = &vg_h[0];
 	r = extract_file(reader, filename, callback, callback_data);
+	if (r != 0 && filename == NULL) { VG_CANARY("extract_file: extracted under the header's own name"); }
+	if (r == 0 && (VG_D1 || VG_D2) && vg_F.fcloses != 0) { VG_CANARY("extract_file: bad verdict after writing"); }
 	VG_CANARY("extract_file");
 }
 
@@ -517,7 +527,6 @@ void h_placeholder(void)
 	__CPROVER_assert(vg_F.fopens == fo + 1 && vg_F.fopen_name == vg_userfn && vg_F.fopen_uid == -1 && vg_F.fopen_gid == -1 && vg_F.fopen_perms == 0600,
 	                 "C10: the placeholder is an empty private file (0600, no owner change) at the link's place");
 	__CPROVER_assert(!vg_F.file_open && vg_F.fcloses == fc + (r != 0), "C20: placeholder file closed exactly once");
-	__CPROVER_assert(vg_F.symlinks == 0 || 1, "-");
 	if (r == 0) {
 		__CPROVER_assert(vg_rd.deferred_symlinks == head0 && vg_ref[0] == ref0 && vg_addref_calls == ar && vg_k == 0,
 		                 "C15: failure to create the placeholder defers nothing");
@@ -761,7 +770,7 @@ void h_read(void)
 
 void h_end_of_top_dir(void)
 {
-	int r; LHAReader snap; LHAFileHeader *top, *input;
+	int r; LHAReader snap; LHAFileHeader *top, *input; unsigned bn0;
 	vg_havoc();
 	vg_pick_strings();
 	vg_rd.dir_stack = nondet_bool() ? NULL : &vg_h[vg_pick_index()];
@@ -769,7 +778,7 @@ void h_end_of_top_dir(void)
 	/* directory headers always carry a path (lib/lha_file_header.c sanity check; extract_directory pushes only those) */
 	__CPROVER_assume(vg_rd.dir_stack != NULL ==> vg_rd.dir_stack->path != NULL);
 	__CPROVER_assume(VG_POLICY_OK);
-	snap = vg_rd; top = vg_rd.dir_stack; input = vg_B.cur;
+	snap = vg_rd; top = vg_rd.dir_stack; input = vg_B.cur; bn0 = vg_B.next_calls;
 	r = end_of_top_dir(&vg_rd);
 	__CPROVER_assert(top == NULL ==> r == 0, "C15: no pending directory, nothing to re-present");
 	__CPROVER_assert((top != NULL && input == NULL) ==> r != 0, "C15: at end of archive every pending directory is re-presented (both deferring policies)");
@@ -786,7 +795,7 @@ void h_end_of_top_dir(void)
 	}
 	__CPROVER_assert(vg_rd.curr_file == snap.curr_file && vg_rd.curr_file_type == snap.curr_file_type && vg_rd.dir_stack == snap.dir_stack &&
 	                 vg_rd.deferred_symlinks == snap.deferred_symlinks && vg_rd.dir_policy == snap.dir_policy && vg_rd.decoder == snap.decoder &&
-	                 vg_rd.inner_decoder == snap.inner_decoder && vg_B.next_calls == 0 + vg_B.next_calls, "frame: a pure query");
+	                 vg_rd.inner_decoder == snap.inner_decoder && vg_B.next_calls == bn0, "frame: a pure query");
 	VG_CANARY("end_of_top_dir");
 }
 
